@@ -276,6 +276,8 @@ class LedgerSim:
         rb = self.parent_of(op.get('tip', -1))
         txs, fees, _ = self.build_txs(rb, op.get('txs', []))
         ts = rb.ts + max(1, op.get('dt', 60))
+        if op.get('ts_abs') is not None:
+            ts = max(rb.ts + 1, op['ts_abs'])
         now = ts + max(-30, op.get('clock', 0))
         view = view_at(self.cs, rb.id)
         if self.cfg.get('nopow'):
